@@ -26,6 +26,7 @@ func NewBlockFile() *blockfile.BlockFile {
 	}
 	bfDirs[bf] = dir
 	bfDurable[bf] = -1
+	tempDirs = append(tempDirs, dir)
 	return bf
 }
 
